@@ -13,7 +13,7 @@ if os.path.exists(hp):
             hooks_commits.append(line.split()[0])
 checks = []
 for pid in allids:
-    if pid not in props or props[pid].get("unclaimed"):
+    if pid not in props or not props[pid].get("ready"):
         continue
     c = props[pid]
     checks.append({
@@ -30,7 +30,7 @@ for pid in allids:
 na = []
 reasons = json.load(open(os.path.join(V, "not_claimed.json"))) if os.path.exists(os.path.join(V, "not_claimed.json")) else {}
 for pid in allids:
-    if pid in props and not props[pid].get("unclaimed"):
+    if pid in props and props[pid].get("ready"):
         continue
     na.append({"property_id": pid, "reason": reasons.get(pid, "not built yet: the Lean model, theorems and tie for this property are not finished; nothing is claimed")})
 m = {
